@@ -59,9 +59,15 @@ def ev_from_json(j):
 class Session:
     """Runs events on both sides; raises Divergence at the first difference."""
 
-    def __init__(self, version=7, seed=0, compare_state=True, observers=(), sched=False):
+    def __init__(self, version=7, seed=0, compare_state=True, observers=(), sched=False, aio=False):
         self.version = version
-        if sched:
+        self.aio = aio
+        if aio:
+            import aimpl
+            self.impl = aimpl.AsyncImpl(version=version, seed=seed)
+            self.pending = {}      # conn -> number of requests pipelined behind a blocking pop
+            self.park_info = {}    # conn -> (virtual time when parked, requested timeout)
+        elif sched:
             import sched as Sc
             self.impl = Sc.SchedImpl(version=version, seed=seed)
             self.impl.parked_kind = {}
@@ -98,6 +104,18 @@ class Session:
             self.cmd(ev, ev[1], ev[2])
         elif kind in ('wake', 'timeout'):
             self.resume(ev, ev[1], kind == 'wake')
+        elif kind == 'aadv':
+            self.impl.advance_loop(ev[1])
+            self.impl.clock.advance_ms(int(ev[1] * 1000))
+            self.after_async(ev)
+        elif kind == 'gc':
+            import gc
+            self.impl.socks.pop(ev[1], None)
+            self.impl.closed.discard(ev[1])
+            gc.collect()
+            self.model.ask('gc %d' % ev[1])
+            if self.compare_state:
+                self.compare_snap(ev)
         elif kind == 'send':
             self.raw_send(ev, ev[1], ev[2])
         else:
@@ -110,12 +128,31 @@ class Session:
         before = self.impl.snapshot_struct() if self.observers else None
         if self.sched:
             self.impl.parked_kind[c] = name
+        was_paused = bool(self.aio and self.impl.socks[c]._paused)
         out_i, crash_i, clocks, picks = self.impl.send(c, encode_request(fields))
         self.last_out = out_i
         mine = out_i.get(c, [])
         self.last_raw = mine[0] if len(mine) == 1 else mine
-        line = self.model.cmd(c, model_fields(fields), clocks, picks, park=self.sched)
+        if self.aio:
+            line = self.model.cmd(c, model_fields(fields), clocks, picks, park=2)
+            if was_paused:
+                self.pending[c] = self.pending.get(c, 0) + 1
+            elif self.impl.socks[c]._paused:
+                if not hasattr(self.impl, 'parked_kind'):
+                    self.impl.parked_kind = {}
+                self.impl.parked_kind[c] = name
+                try:
+                    self.park_info[c] = (self.impl.loop.vtime, float(fields[-1]))
+                except ValueError:
+                    pass
+        else:
+            line = self.model.cmd(c, model_fields(fields), clocks, picks, park=self.sched)
         self.compare_outputs(ev, c, name, out_i, crash_i, line)
+        if self.aio:
+            if self.compare_state:
+                self.compare_snap(ev)
+            self.after_async(ev)
+            return
         if self.compare_state:
             self.compare_snap(ev)
         for ob in self.observers:
@@ -132,6 +169,42 @@ class Session:
             self.compare_snap(ev)
         for ob in self.observers:
             ob(self, ev, name, before, out_i, crash_i)
+
+    def after_async(self, ev):
+        """run the event loop to quiescence and replay on the model what the re-try tasks did"""
+        paused_before = [c for c, s in sorted(self.impl.socks.items()) if s._paused]
+        out_i, clocks = self.impl.settle()
+        self.last_out = out_i
+        with_pending = [c for c in paused_before if self.pending.get(c)]
+        for c in paused_before:
+            mine = out_i.get(c, [])
+            still = self.impl.socks[c]._paused
+            cl = clocks if (with_pending and c == with_pending[0]) or (not with_pending and c == paused_before[0]) else []
+            if still and not mine:
+                line = self.model.ask('awake %d -' % c)
+                om, crash_m, fault = Mo.parse_out(line)
+                if om or fault:
+                    raise Divergence(self.index, ev, 'async-recheck', {'conn': c, 'impl': 'still parked'}, line)
+                continue
+            first = mine[0] if mine else '<nothing>'
+            if first is None:
+                kind = 'atimeout'
+                t0, req = self.park_info.get(c, (None, None))
+                if t0 is not None and req and self.impl.loop.vtime - t0 < req - 1e-9:
+                    Mn_add(self, 'C14', 'timeout_not_early', 'nil after %.3f s of a %.3f s timeout' % (self.impl.loop.vtime - t0, req))
+            else:
+                kind = 'awake'
+            line = self.model.ask('%s %d %s' % (kind, c, Mo.fmt_clocks(cl)))
+            self.pending.pop(c, None)
+            self.compare_outputs(ev, c, None, {c: mine}, None, line)
+        extra = {c: v for c, v in out_i.items() if c not in paused_before}
+        if extra:
+            raise Divergence(self.index, ev, 'async-unexpected-output', _show({k: [Cn.from_impl(x) for x in v] for k, v in extra.items()}, None), '')
+        if self.impl.task_errors:
+            errs, self.impl.task_errors = list(self.impl.task_errors), []
+            Mn_add(self, 'C14', 'task_exception', 'exception escaped the re-try task: %s' % errs)
+        if self.compare_state:
+            self.compare_snap(ev)
 
     def raw_send(self, ev, c, data):
         out_i, crash_i, clocks, picks = self.impl.send(c, data)
@@ -181,8 +254,15 @@ class Session:
     def compare_snap(self, ev):
         si = self.impl.snapshot()
         sm = self.model.snap()
+        if self.aio:
+            sm = sm.replace('!,paused', ',paused')
         if si != sm:
             raise Divergence(self.index, ev, 'state', si, sm)
+
+
+def Mn_add(session, prop, clause, detail):
+    import monitors as Mn
+    Mn.add(session, prop, clause, detail)
 
 
 def _kind(r):
